@@ -10,10 +10,10 @@ Campaign (implementation in worker processes, model inside Coq through Corr/C14J
     thorough: every single-bit mask) -> the load must raise or give back the original, never another array, never
     hang or crash the process.
   * rewritten archives from which every non-empty subset of the members was removed -> the load must raise.
-The former findings D9 (1-d / 0-d GCXS, CSR / CSC) and the damaged-file hole were repaired in /repo (a36d130): they
-have no clause any more, any recurrence is a NEW violation.  Violations of the remaining known kinds carry the name
-of the failed domain clause (NB_shape_fits_coords_dtype, NB_construct_shape_type, MM_optional_compressed_axes);
-everything else is reported without clause as a new violation."""
+The former findings D9 (1-d / 0-d GCXS, CSR / CSC), the damaged-file hole (a36d130) and the optional compressed_axes
+member (19bbdac) were repaired in /repo: they have no clause any more, any recurrence is a NEW violation.  Violations
+of the remaining known kinds carry the name of the failed domain clause (NB_shape_fits_coords_dtype,
+NB_construct_shape_type); everything else is reported without clause as a new violation."""
 import itertools
 import json
 import os
@@ -52,7 +52,7 @@ ASSUMPTIONS = [
 
 DTYPES = ["int8", "int16", "int32", "int64", "uint8", "uint16", "uint32", "uint64",
           "float32", "float64", "complex64", "complex128", "bool"]
-CLAUSES = {2: "NB_shape_fits_coords_dtype", 3: "NB_construct_shape_type", 4: "MM_optional_compressed_axes"}
+CLAUSES = {2: "NB_shape_fits_coords_dtype", 3: "NB_construct_shape_type"}
 MEMBERS = ["data", "shape", "fill_value", "coords", "indices", "indptr", "compressed_axes"]
 KCODE = {"COO": 0, "GCXS": 1, "CSR": 2, "CSC": 3}
 EXC_CODE = {"ValueError": 1, "RuntimeError": 2, "TypeError": 3, "IndexError": 4}
@@ -370,8 +370,9 @@ WITNESSES = [
 # arrays of the former D9 witnesses (now inside the proved domain) are kept as ordinary cases
 FORMER_D9 = [_w("gcxs", [6], [0, 5, 6, 0, 0, 0], None), _w("csr", [2, 3], [[0, 5, 0], [0, 0, 6]], [0]),
              _w("csc", [2, 3], [[0, 5, 0], [0, 0, 6]], [1])]
-# witness of npz_missing_member_refuted: the 3-d GCXS file without its compressed_axes member
-MM_WITNESS = ({"fmt": "gcxs", "shape": [2, 3, 4], "axes": [0, 2], "pattern": "partial", "dtype": "int64", "fill": "0", "seed": 21}, [6], 14)
+# the former witness of the missing-member refutation (3-d GCXS file without its compressed_axes member): now an
+# ordinary case that must raise
+MM_FORMER = {"fmt": "gcxs", "shape": [2, 3, 4], "axes": [0, 2], "pattern": "partial", "dtype": "int64", "fill": "0", "seed": 21}
 
 
 def axes_subsets(nd):
@@ -525,14 +526,14 @@ def gen_missing_cases(tier):
     base = [
         ({"fmt": "coo", "shape": [2, 3], "axes": None, "pattern": "partial", "dtype": "int64", "fill": "0", "seed": 1}, [0, 1, 2, 3]),
         ({"fmt": "coo", "shape": [], "axes": None, "pattern": "full", "dtype": "float64", "fill": "nan", "seed": 2}, [0, 1, 2, 3]),
-        ({"fmt": "gcxs", "shape": [6], "axes": None, "pattern": "partial", "dtype": "int64", "fill": "0", "seed": 12}, [0, 1, 2, 4, 5]),
+        ({"fmt": "gcxs", "shape": [6], "axes": None, "pattern": "partial", "dtype": "int64", "fill": "0", "seed": 12}, [0, 1, 2, 4, 5, 6]),
         ({"fmt": "gcxs", "shape": [2, 3], "axes": [1], "pattern": "partial", "dtype": "int32", "fill": "3", "seed": 16}, [0, 1, 2, 4, 5, 6]),
-        (MM_WITNESS[0], [0, 1, 2, 4, 5, 6]),
+        (MM_FORMER, [0, 1, 2, 4, 5, 6]),
         ({"fmt": "csr", "shape": [3, 4], "axes": [0], "pattern": "partial", "dtype": "float32", "fill": "3", "seed": 13}, [0, 1, 2, 4, 5, 6]),
     ]
     if tier != "quick":
         base += [
-            ({"fmt": "gcxs", "shape": [], "axes": None, "pattern": "empty", "dtype": "int16", "fill": "3", "seed": 14}, [0, 1, 2, 4, 5]),
+            ({"fmt": "gcxs", "shape": [], "axes": None, "pattern": "empty", "dtype": "int16", "fill": "3", "seed": 14}, [0, 1, 2, 4, 5, 6]),
             ({"fmt": "csc", "shape": [3, 4], "axes": [1], "pattern": "full", "dtype": "bool", "fill": "true", "seed": 17}, [0, 1, 2, 4, 5, 6]),
             ({"fmt": "gcxs", "shape": [2, 2, 1, 2, 2], "axes": [1, 3, 4], "pattern": "partial", "dtype": "complex64", "fill": "inf", "seed": 18}, [0, 1, 2, 4, 5, 6]),
         ]
@@ -609,7 +610,7 @@ def campaign(build, tier, seed, report, budget=1):
     files = gen_fault_files(tier, rng)
 
     # ---------------------------------------------------------------- round trips
-    res = vlib.run_impl("props.c14", "impl_ops", specs, workers=12, per_case_timeout=60.0)
+    res = vlib.run_impl("props.c14", "impl_ops", specs, workers=6, per_case_timeout=60.0)
     npz_l, npz_i, pk_l, pk_i, cp_l, cp_i = [], [], [], [], [], []
     evaluations = 0
     for si, (spec, r) in enumerate(zip(specs, res, strict=True)):
@@ -662,7 +663,7 @@ def campaign(build, tier, seed, report, budget=1):
 
     phase = {"roundtrips_s": round(time.time() - t0, 1)}
     # ---------------------------------------------------------------- Numba
-    nres = vlib.run_impl("props.c14", "impl_numba", nb_specs, workers=12, per_case_timeout=90.0)
+    nres = vlib.run_impl("props.c14", "impl_numba", nb_specs, workers=6, per_case_timeout=90.0)
     nb_l, nb_i = [], []
     for si, (spec, r) in enumerate(zip(nb_specs, nres, strict=True)):
         if "in" not in r:
@@ -692,7 +693,7 @@ def campaign(build, tier, seed, report, budget=1):
     phase["numba_s"] = round(time.time() - t0 - phase["roundtrips_s"], 1)
     # ---------------------------------------------------------------- archives with members removed
     mcases = gen_missing_cases(tier)
-    mres = vlib.run_impl("props.c14", "impl_missing", mcases, workers=8, per_case_timeout=60.0)
+    mres = vlib.run_impl("props.c14", "impl_missing", mcases, workers=4, per_case_timeout=60.0)
     m_l = []
     for case, r in zip(mcases, mres, strict=True):
         o = r.get("outcome") if "in" in r else r
@@ -706,15 +707,10 @@ def campaign(build, tier, seed, report, budget=1):
         cl = clause_of(code)
         viol.append({"property": "C14", "op": "load_npz_missing_member", "kind": kind_of(code), "clause": cl, "verdict_code": code,
                      "what": f"archive without member(s) {[MEMBERS[c] for c in case[2]]}: " +
-                             ("loaded as an array instead of raising" if code in (3, 14, 24) else CODE_TEXT.get(code, str(code))) +
+                             ("loaded as an array instead of raising" if code == 3 else CODE_TEXT.get(code, str(code))) +
                              (f" (clause {cl})" if cl else ""),
                      "case": {"spec": case[0], "compressed": case[1], "removed": [MEMBERS[c] for c in case[2]]},
                      "impl": r.get("outcome", r), "replay_py": replay_line("replay_missing", case[0], case[1], case[2])})
-    mmv = verdicts.get((json.dumps(MM_WITNESS[0], sort_keys=True), "missing" + str(MM_WITNESS[1])), 0)
-    cov["refuted_witnesses_replayed"].append({"theorem": "npz_missing_member_refuted", "operation": "load of the archive without compressed_axes",
-                                              "expected_verdict": MM_WITNESS[2], "observed_verdict": mmv, "reproduced": mmv == MM_WITNESS[2]})
-    if mmv != MM_WITNESS[2]:
-        report["notes"].append(f"witness of npz_missing_member_refuted did not reproduce (verdict {mmv})")
     # ---------------------------------------------------------------- damaged files
     fcases = []
     for fi, (spec, comp, kinds, parts) in enumerate(files):
@@ -758,8 +754,8 @@ def campaign(build, tier, seed, report, budget=1):
         mech["axes_member_hidden"] = mech.get("axes_member_hidden", 0) + n_axes_only
         mech["other"] = mech.get("other", 0) + len(r.get("other_pos", []))
         if bad and not r.get("other_pos"):
-            hint = ("only compressed_axes differs (None): the damage hid the optional compressed_axes member from the "
-                    "archive directory — same mechanism as clause MM_optional_compressed_axes")
+            hint = ("only compressed_axes differs (None): the damage hid the compressed_axes member from the archive "
+                    "directory (the defect repaired by /repo 19bbdac has come back)")
         elif r.get("other_pos"):
             bad = r["other_pos"] + [b for b in bad if b not in r["other_pos"]]
         v = {"property": "C14", "op": "load_npz_damaged" if (hint or not bad) else "load_npz_damaged_other",
